@@ -100,7 +100,8 @@ def subdivide(
         new_attributes = {}
         for key, values in vertex_attributes.items():
             attr_mid = values[edges[unique]].mean(axis=1)
-            new_attributes[key] = np.vstack((values, attr_mid))
+            # attributes may be (n,) as well as (n, d)
+            new_attributes[key] = np.concatenate((values, attr_mid))
         return new_vertices, new_faces, new_attributes
 
     if return_index:
